@@ -178,6 +178,24 @@ def two_phase(fd):
     return bool(raises) and bool(muts) and max(raises) < min(muts)
 
 
+def cannot_raise_shape(fd):
+    """a function that only walks object graphs: no raise / assert / subscript / arithmetic / ordering comparison, and
+    every call is isinstance(...), a call of itself, or .values() / .items() / .keys() — nothing in it can raise on
+    objects that have the attributes it reads (the trace walk validates that on the calls a run makes)"""
+    for n in ast.walk(fd):
+        if isinstance(n, (ast.Raise, ast.Assert, ast.Subscript, ast.BinOp, ast.Try, ast.While, ast.Delete)):
+            return False
+        if isinstance(n, ast.Compare) and any(isinstance(o, (ast.Lt, ast.LtE, ast.Gt, ast.GtE)) for o in n.ops):
+            return False
+        if isinstance(n, ast.Call):
+            f = n.func
+            ok = (isinstance(f, ast.Name) and f.id == "isinstance") or (
+                isinstance(f, ast.Attribute) and f.attr in (fd.name, "values", "items", "keys"))
+            if not ok:
+                return False
+    return True
+
+
 MUTATING_METHODS = {"add", "append", "extend", "update", "clear", "discard", "insert", "remove", "pop", "popitem",
                     "setdefault", "sort", "reverse"}
 PURE_CONTAINER_METHODS = {"items", "keys", "values", "copy", "get"}
@@ -802,6 +820,17 @@ class Translator:
                         "(two_phase): it raises before it changes anything; the extends that follow add objects whose "
                         "numbers were just checked against the collection and against each other")
             return fact
+        # a static method of the own class called on objects this call created (deepcopy / constructor): whatever
+        # it changes is not part of the problem yet
+        if fact is None and recv in (ctx.selfname, ctx.cls) and e.args and not e.keywords and all(
+                isinstance(a, ast.Name) and a.id in ctx.fresh_deep for a in e.args):
+            c, fd = self.ix.find_method(ctx.cls, m)
+            if fd is not None and any(ast.unparse(d) == "staticmethod" for d in fd.decorator_list):
+                r = not cannot_raise_shape(fd)
+                return (r, False, False,
+                        f"{c}.{m} is a static method and every argument is an object graph created by this call "
+                        f"(deepcopy / constructor): no object of the problem is touched"
+                        + ("" if r else "; its body only walks the graph (cannot_raise_shape)"))
         if m == "_generate_default_node" and (ctx.cls, ctx.qual) == ("ThermalScatteringLaw", "thermal_scattering_laws.setter"):
             return (False, False, False,
                     "MCNP_Object._generate_default_node(str, law) with `law` one of the elements the loop above checked to be "
